@@ -46,7 +46,7 @@ if os.path.exists(extra):
 props = [json.loads(l)["id"] for l in open(os.path.join(V, "properties.jsonl"))]
 checks = [chk(p, *T[p]) for p in props if T.get(p)]
 claimed = {c["property_id"] for c in checks}
-hook_commits = ["569271a", "fe50b71", "0ff0dd6"]
+hook_commits = ["569271a", "fe50b71", "0ff0dd6", "853eb3f"]
 m = {"version": 1, "setup_cmd": "./setup.sh",
  "hooks": {"guard": "pubgrub_verif",
            "enable": "RUSTFLAGS='--cfg pubgrub_verif' (set in /verif/harness/.cargo/config.toml; the harness path-depends on /repo)",
